@@ -65,7 +65,7 @@ class C01(Check):
     quick_examples = 4000
     thorough_examples = 60000
     rule = (
-        "[drawn in addition since rounds 13-15: async dispatcher serving plain functions and its sequential batch mode; request objects with 1..3 deviations (several extension members); every scripted exception type once per serving mode; a coroutine that does not finish within 30 s counts as raised] "
+        "[round 16: clean batches of 10-33 elements] [drawn in addition since rounds 13-15: async dispatcher serving plain functions and its sequential batch mode; request objects with 1..3 deviations (several extension members); every scripted exception type once per serving mode; a coroutine that does not finish within 30 s counts as raised] "
         "cases: request texts rendered from generated documents (single request objects and arrays of 0..6 elements aimed at a "
         "15-method registry: valid calls / notifications, non-binding params, unknown methods, member-alphabet deviations of "
         "jsonrpc/id/method/params, non-object elements, duplicate ids), arbitrary JSON values, containers nested 8..62 levels, integer "
